@@ -91,7 +91,10 @@ Sym gen_symmetric(Src& s)
 		q = l_identity((size_t) n);
 		for(int i = 0; i + 1 < n; i += 2)
 		{
-			long double th = (long double) s.uniform(0, 6.283185307179586), cs = cosl(th), sn = sinl(th);
+			// any angle; sometimes a tiny one: nearly decoupled eigenvalues, which an unshifted QR iteration first has to re-order (finding D27)
+			int tk		   = s.pick({6, 2, 1});
+			long double th = tk == 0 ? (long double) s.uniform(0, 6.283185307179586) : (long double) (s.sign() * std::pow(10.0, tk == 1 ? s.uniform(-18, -1) : s.uniform(-300, -18)));
+			long double cs = cosl(th), sn = sinl(th);
 			q[(size_t) i][(size_t) i] = cs;
 			q[(size_t) i][(size_t) i + 1] = -sn;
 			q[(size_t) i + 1][(size_t) i] = sn;
@@ -100,6 +103,9 @@ Sym gen_symmetric(Src& s)
 		for(int i = n - 1; i > 0; i--)
 			std::swap(S.lam[(size_t) i], S.lam[(size_t) s.range(0, i)]);
 		S.kind = "block_diagonal";
+		for(int i = 0; i + 1 < n; i += 2)
+			if(fabsl(q[(size_t) i + 1][(size_t) i]) < 1e-3L && q[(size_t) i + 1][(size_t) i] != 0)
+				S.kind = "block_diagonal_nearly_decoupled";
 	}
 	LRows d = l_identity((size_t) n);
 	for(int i = 0; i < n; i++)
